@@ -181,6 +181,15 @@ def check_conc(prop, tier):
             drift += queue_checks.queue_conc_part(res, work, tier, rng)
         if prop == "C14":
             drift += uuid_part(res, work, tier, rng)
+        if prop == "C15":
+            # the single-threaded half of the quantifier: random histories over all kinds, judged by LevelSeq!P_C15
+            n = 120 if tier == "quick" else 3000
+            hq = [scen.seq_scenario(scen.seq_history(rng, rng.range(15, 45), nids=rng.choice([3, 4, 6]), monotone_ts=True, zero_ok=False)) for _ in range(n)]
+            h5 = run_harness("level", hq, work, "c15seq", timeout=3000)
+            s5 = tv(h5["trace"], "MCTraceSeq", "TraceSeq", work, timeout=6000)
+            res.add(sequential_histories=s5["execs"], sequential_calls=s5["calls"], traces_validated_against_impl=s5["execs"])
+            classify_tv(res, s5, {"C15"}, set(), lambda i: hq[i], "recorded single-threaded history", spec="seq")
+            drift += len(s5["drifts"])
         if drift and not res.violations:
             # ESCALATION: enumerate many more schedules of the real code on the drifting scenarios
             # the scenarios with the most calls first: consequences of a divergence need follow-up operations
